@@ -277,6 +277,12 @@ pub fn conc_oob(count: u32, stride: u32, sel: u16) -> usize {
         }
         list.push(1usize << 63);
         list.push((1usize << 63) + 1);
+        // indices that look in range after narrowing to 8 / 16 / 32 bits
+        for sh in [8u32, 16, 32] {
+            list.push(1usize << sh);
+            list.push((1usize << sh) + 1);
+            list.push((1usize << sh) + k - 1);
+        }
     }
     let cands: Vec<usize> = list.iter().copied().filter(|x| *x >= k).collect();
     cands[pick(sel, cands.len())]
